@@ -68,6 +68,11 @@ def _items(rng):
                 q = "\\'"
                 where = rng.choice(["start", "mid", "end", "end", "only"])
                 txt = q + txt if where == "start" else txt[: len(txt) // 2] + q + txt[len(txt) // 2:] if where == "mid" else txt + q if where == "end" else q
+            if rng.random() < 0.12:
+                # a character without an ASCII byte: nothing is emitted for it (or the program is rejected); either way the
+                # directive occupies exactly what it emits
+                i = rng.randint(0, len(txt))
+                txt = txt[:i] + rng.choice(["\u00e9", "\u00dc", "\u00bd", "\u6f22\u5b57"]) + txt[i:]
             items.append({"d": "ascii", "s": txt})
         else:
             k = rng.random()
@@ -112,7 +117,7 @@ _CONV = ["verbatim"]
 def _ascii_bytes(text: str) -> bytes:
     """bytes of a quoted text.  The statement does not say whether `\\'` stands for the two characters or for the quote
     alone: either reading is accepted, applied to the whole program (see run_case)"""
-    return (text.replace("\\'", "'") if _CONV[0] == "unescaped" else text).encode("ascii")
+    return (text.replace("\\'", "'") if _CONV[0] == "unescaped" else text).encode("ascii", errors="ignore")
 
 
 def _size(item) -> int:
@@ -237,6 +242,11 @@ def _run_case(case) -> Outcome:
     out.sample = {"rom": rom, "source": [l[:100] for l in src[:14]], "files": {f: (s if "hex" not in s else {"hex": s["hex"][:32]}) for f, s in files.items()}}
     res = driver.assemble_mem(source, rom=rom, files=files)
     kinds = "+".join(sorted({it["d"] for it in items}))
+    if not res.accepted and any(it["d"] == "ascii" and not it["s"].isascii() for it in items):
+        out.labels.append("non-ascii:rejected")
+        return out
+    if any(it["d"] == "ascii" and not it["s"].isascii() for it in items):
+        out.labels.append("non-ascii:dropped")
     if not res.accepted:
         return out.bad(f"rejected:{res['exc'] or 'error'}@{res['frame']}", case,
                        f"valid data program rejected: {res['status']} {res['exc']} {res.failure_text[:300]}\n{source[:600]}")
